@@ -214,6 +214,21 @@ CLAIMED = {
         "observed for the cells run (the evidence says how many of the product), not proved. Token-bearing response types are outside the product (the RP does not "
         "advertise them).",
    technique="Lean 4 proof over the finite cell type (case analysis, no sampling) + in-process RP<->OP correspondence with cross-view oracle", ref="6 C12"),
+ "C20": dict(
+   text="Lean theorems over a heap model of Python containers (cells with references, allocation pointer): copy.deepcopy allocates and never "
+        "shares (deepcopy_fresh, by induction over the nesting depth); a structural snapshot of static state is the same in every store that "
+        "agrees below the allocation bound (snap_frame); the usage-rules flow — AuthzHandling.usage_rules followed by the token helper's "
+        "append to supports_minting — AS THE CODE HAS IT writes no cell that existed before the request, for every heap and every rules value "
+        "(usage_flow_static_unwritten), with concrete heaps on which the code before the fixes does; per-request settings kept in a "
+        "request-local cell leave static state alone, kept on the endpoint / class table they overwrite it. The flow variant that applies is "
+        "read off /repo's AST on every run (Gen/Flows.lean, obligation flows_as_modelled). Tie: one long-lived provider and client; after "
+        "EVERY request a deep structural snapshot of ~500 static roots (every Message subclass's c_param / c_default / c_allowed_values, "
+        "module constants, endpoint and handler attributes, authz / claims configuration, provider_info, client records minus auth_method) "
+        "is compared with the one before the batch and with the model's prediction; alias graph static ∩ dynamic reported; history-freedom "
+        "probes (aged vs fresh instance).",
+   note="PARTIAL: the theorems cover the transcribed flows (usage rules, per-request settings); for all other static state the claim 'unchanged' is the trivial frame and "
+        "only the snapshot comparison covers it. Thread-level interleavings are outside the model.",
+   technique="Lean 4 proof (heap model: deepcopy freshness by induction + frame theorem; flow variant generated from the AST) + snapshot/alias-graph correspondence", ref="6 C20"),
 }
 NOT_YET = {}
 ALL = [f"C{i:02d}" for i in range(1, 21)]
